@@ -212,6 +212,24 @@ def _truth_alternatives(f, fg, name, polarity, depth=0):
         if isinstance(v, (ast.Compare, ast.BoolOp, ast.UnaryOp, ast.Call)):
             alts.append(here + list(fg.norm.conj(v, polarity)))
             continue
+        if isinstance(v, ast.IfExp):
+            # x = A if t else B : truthy when (t and A) or (not t and B)
+            for branch, pol in ((v.body, True), (v.orelse, False)):
+                cond = list(fg.norm.conj(v.test, pol))
+                if isinstance(branch, ast.Constant):
+                    if bool(branch.value) == polarity:
+                        alts.append(here + cond)
+                    continue
+                if isinstance(branch, ast.Name):
+                    sub = _truth_alternatives(f, fg, branch.id, polarity, depth + 1)
+                    if sub is None:
+                        alts.append(here + cond + [("truthy" if polarity else "falsy",
+                                                    branch.id, None)])
+                    else:
+                        alts.extend(here + cond + s_ for s_ in sub)
+                    continue
+                alts.append(here + cond + list(fg.norm.conj(branch, polarity)))
+            continue
         return None
     return alts
 
@@ -251,6 +269,8 @@ def _contradictory(alt):
     """The conjunction contains an atom and its complement: an infeasible combination."""
     seen = set()
     for a in alt:
+        if a[0] == "const" and not a[1]:
+            return True   # a constant-false test: this branch is dead
         if a[0] in _COMPLEMENT and len(a) > 2:
             try:
                 if (_COMPLEMENT[a[0]], a[1], a[2]) in seen:
@@ -261,9 +281,30 @@ def _contradictory(alt):
     return False
 
 
-def expand_alternatives(f, fg, atoms):
+def expand_alternatives(f, fg, atoms, _depth=0):
     """The guard list `atoms` as a list of alternative guard lists in which truthy / falsy
     atoms on boolean locals (see _truth_alternatives) are replaced by what they stand for."""
+    first = _expand_once(f, fg, atoms)
+    if _depth >= 3:
+        return first
+    out = []
+    for alt in first:
+        if alt == list(atoms):
+            out.append(alt)
+            continue
+        again = expand_alternatives(f, fg, alt, _depth + 1)
+        out.extend(again)
+    # drop duplicates, keep order
+    seen, uniq = set(), []
+    for alt in out:
+        key = repr(alt)
+        if key not in seen:
+            seen.add(key)
+            uniq.append(alt)
+    return uniq[:128]
+
+
+def _expand_once(f, fg, atoms):
     alts = [[]]
     for a in atoms:
         sub = None
@@ -272,7 +313,11 @@ def expand_alternatives(f, fg, atoms):
         if sub is None and a[0] in ("is", "isnot") and len(a) > 2 and a[2] is None \
                 and isinstance(a[1], str) and a[1].isidentifier():
             sub = _none_alternatives(f, fg, a[1], a[0] == "is")
+        if a[0] == "const" and a[1]:
+            continue   # a constant-true test constrains nothing
         if sub is None and a[0] == "or":
+            if any(all(x_[0] == "const" and x_[1] for x_ in alt) for alt in a[1]):
+                continue   # one disjunct is constantly true: the disjunction is vacuous
             sub = [list(alt) for alt in a[1]]
         if sub is None:
             alts = [x + [a] for x in alts]
@@ -284,7 +329,7 @@ def expand_alternatives(f, fg, atoms):
         out = []
         for alt in alts:
             if any(a[0] == "or" for a in alt):
-                out.extend(expand_alternatives(f, fg, alt))
+                out.extend(_expand_once(f, fg, alt))
             else:
                 out.append(alt)
         alts = out[:128]
@@ -704,14 +749,18 @@ def _unchanged_paths(ctx, f, fg, r):
     taken before the writes with one taken after them."""
     out = []
     atoms = fg.atoms(r)
+    from sa.core import subst_locals
+
+    def resolved(txt):
+        try:
+            return unparse(subst_locals(f.node, ast.parse(txt, mode="eval").body))
+        except (SyntaxError, ValueError):
+            return txt
     for a in atoms:
         if a[0] == "==" and isinstance(a[2], tuple) and a[2][0] == "src":
-            n1, n2 = a[1], a[2][1]
-            d1, d2 = local_def(f.node, n1), local_def(f.node, n2)
-            if len(d1) == 1 and len(d2) == 1:
-                t1, t2 = unparse(d1[0].value), unparse(d2[0].value)
-                if t1 == t2 and "get_workflow_status" in t1:
-                    out.append(("WS", "status"))
+            t1, t2 = resolved(a[1]), resolved(a[2][1])
+            if t1 == t2 and "get_workflow_status" in t1:
+                out.append(("WS", "status"))
     return out
 
 
